@@ -12,106 +12,201 @@ import natives
 
 class RouterHarness(h_lib.LibHarness):
     name = 'notification_step'
-    real_functions = ('Router::on_notification', 'Server::handle_did_change_text_document', 'Server::handle_did_save_text_document',
+    real_functions = ('Router::handle_message', 'Router::on_notification', 'Server::handle_did_change_text_document', 'Server::handle_did_save_text_document',
                       'BasePath::url_to_key', 'Database::update_document', 'Graph::update_key')
-    required_covers = ('applied-when-no-worker-alive', 'worker-alive', 'did-save-with-text', 'did-save-without-text', 'new-file', 'other-notification')
+    required_covers = ('applied-when-no-worker-alive', 'worker-alive', 'did-save-with-text', 'did-save-without-text', 'new-file', 'other-notification', 'second-edit')
 
     def __init__(self, prog, tier='quick'):
         h_lib.LibHarness.__init__(self, prog, tier)
         self.name = 'notification_step'
         self.required_covers = RouterHarness.required_covers
-        self.bounds = {'live clones of Arc<Server>': 'symbolic, 1..4 / 1..8 (1 = only the loop thread); fairness: while the loop thread waits, workers finish one by one', 'notifications': 'didChange, didSave with / without text, unknown method, exit',
+        self.bounds = {'session': '1 or 2 notifications, each preceded by 0..2 (quick) / 0..3 (thorough) requests still in flight', 'workers': 'for every worker and notification a symbolic flag: still running when that notification is handled; fairness: while the loop thread waits, running workers finish one by one; join returns when the joined worker has finished',
+                       'versions': 'symbolic i32 per edit', 'notifications': 'didChange, didSave with / without text, unknown method, exit',
                        'notes': ['a', 'b'], 'target': 'existing note, new file'}
         self.de_pat = re.compile(r'as Deserialize<.*>>::deserialize')
         self.max_clones = 4 if tier == 'quick' else 8
 
     def run(self, ctx, ex):
+        """a session of messages through the real Router::handle_message: requests spawn workers (thread::spawn is the
+        environment: the worker holds the clone captured by its closure until it finishes), notifications are handled on the
+        loop thread.  Symbolic: for every worker and every notification, whether the worker is still running when that
+        notification is handled; the version numbers of the edits."""
         h, prog = self.h, self.prog
         self.cur_docs = {}
         prog.overrides = {self.stub_pat: self.stub_document, self.de_pat: lambda ex_, c, a, dt: OK(a[0].data) if type(a[0]) is Opaque and a[0].tag == 'JsonParams' else NotImplemented,
-                          re.compile(r'(^|::)sleep$|(^|::)yield_now$'): self.time_passes, re.compile(r'Duration::from_millis$|Duration::from_secs$'): lambda ex_, c, a, dt: Opaque('Duration')}
+                          re.compile(r'(^|::)sleep$|(^|::)yield_now$|(^|::)park_timeout$'): self.time_passes, re.compile(r'Duration::from_(millis|secs|micros|nanos)$'): lambda ex_, c, a, dt: Opaque('Duration'),
+                          re.compile(r'(^|::)spawn(::<.*>)?$'): self.spawn, re.compile(r'JoinHandle(::)?<.*>::join$'): self.join,
+                          re.compile(r'JoinHandle(::)?<.*>::is_finished$'): lambda ex_, c, a, dt: z3.Not(natives.deref(a[0]).data['alive']) if is_sym(natives.deref(a[0]).data['alive']) else (not natives.deref(a[0]).data['alive'])}
         counter = [0]
         texts = {'a': self.new_token([('H',), ('P',)], h, counter), 'b': self.new_token([('P',)], h, counter)}
         db = self.fresh_db(ex, texts)
         cfg = ex.call('<Configuration as Default>::default', [], 'model::config::Configuration')
-        server = prog.mk_struct('router::server::Server', base_path=prog.mk_struct('router::server::BasePath', base_path=BASE), database=db,
-                                lsp_client=prog.mk_enum('router::LspClient', 'Unknown'), configuration=cfg)
+        server = prog.mk_struct_lenient('router::server::Server', base_path=prog.mk_struct('router::server::BasePath', base_path=BASE), database=db,
+                                        lsp_client=prog.mk_enum('router::LspClient', 'Unknown'), configuration=cfg)
         arc = ArcV(Cell(server))
-        clones = ctx.sym_bv('live_clones_of_the_server', 64)
-        ctx.assume(z3.And(z3.UGE(clones, 1), z3.ULE(clones, self.max_clones)))
-        arc.strong = clones
-        self.arc = arc
+        arc.strong = 1
+        self.arc, self.ctx = arc, ctx
         self.waits = 0
-        router = prog.mk_struct('router::Router', server=arc, sender=Opaque('Sender'))
-        kind = ('didChange', 'didSave+text', 'didSave', 'other', 'exit')[ctx.choose(5)]
-        key = ('a', 'c')[ctx.choose(2)]
-        new_tok = self.new_token([('P',), ('P',)], h, counter)
-        if kind == 'didChange':
-            params = lsp(prog, 'DidChangeTextDocumentParams', text_document=lsp(prog, 'VersionedTextDocumentIdentifier', uri=URL(url_of(key)), version=2),
-                         content_changes=h.vec([lsp(prog, 'TextDocumentContentChangeEvent', text=new_tok)]))
-            method = 'textDocument/didChange'
-        elif kind.startswith('didSave'):
-            params = lsp(prog, 'DidSaveTextDocumentParams', text_document=lsp(prog, 'TextDocumentIdentifier', uri=URL(url_of(key))),
-                         text=SOME(new_tok) if kind == 'didSave+text' else NONE())
-            method = 'textDocument/didSave'
-        else:
-            params = Opaque('none')
-            method = 'exit' if kind == 'exit' else '$/setTrace'
-        note = Struct('lsp_server::Notification', [Cell(method), Cell(Opaque('JsonParams', params))], ['method', 'params'])
-        ctx.input_desc = {'notification': kind, 'note': key}
-        ctx.kind = (kind, key)
-        applied_expected = kind in ('didChange', 'didSave+text')
-        lost = False
-        try:
-            r = ex.call('Router::on_notification', [Ref(Cell(router)), note])
-        except Panic as e:
-            # Router::run catches the panic and drops the message: the notification is lost
-            lost = True
-            r = None
-            ctx.panic_msg = e.msg
+        self.workers = []
+        router = prog.mk_struct_lenient('router::Router', server=arc, sender=Opaque('Sender'))
+        rref = Ref(Cell(router))
+        expected = dict(texts)          # what each note must hold once the server is idle
+        script = []
+        n_msgs = 2 if ctx.choose(2) else 1
+        last = None
+        for step in range(n_msgs):
+            # requests still in flight when the notification arrives
+            n_req = ctx.choose(3 if self.tier == 'quick' else 4)
+            for _ in range(n_req):
+                req = Struct('lsp_server::Request', [Cell(Opaque('RequestId')), Cell('textDocument/inlayHint'), Cell(Opaque('JsonParams', Opaque('none')))], ['id', 'method', 'params'])
+                ex.call('Router::handle_message', [rref, prog.mk_enum('lsp_server::Message', 'Request', req)])
+                script.append({'request': len(self.workers) - 1})
+            # since they were started, any of them may have finished
+            for w in self.workers:
+                if w['alive'] is True:
+                    w['alive'] = ctx.sym_bool('worker%d_still_running_at_notification%d' % (w['i'], step + 1))
+            self.refresh()
+            final = step == n_msgs - 1
+            kind = ('didChange', 'didSave+text', 'didSave', 'other', 'exit')[ctx.choose(5)] if final else ('didChange', 'didSave+text')[ctx.choose(2)]
+            key = ('a', 'c')[ctx.choose(2)] if final else 'a'
+            new_tok = self.new_token([('P',), ('P',)], h, counter)
+            version = ctx.sym_bv('version_of_edit%d' % (step + 1), 32)
+            if kind == 'didChange':
+                params = lsp(prog, 'DidChangeTextDocumentParams', text_document=lsp(prog, 'VersionedTextDocumentIdentifier', uri=URL(url_of(key)), version=version),
+                             content_changes=h.vec([lsp(prog, 'TextDocumentContentChangeEvent', text=new_tok)]))
+                method = 'textDocument/didChange'
+            elif kind.startswith('didSave'):
+                params = lsp(prog, 'DidSaveTextDocumentParams', text_document=lsp(prog, 'TextDocumentIdentifier', uri=URL(url_of(key))),
+                             text=SOME(new_tok) if kind == 'didSave+text' else NONE())
+                method = 'textDocument/didSave'
+            else:
+                params = Opaque('none')
+                method = 'exit' if kind == 'exit' else '$/setTrace'
+            note = Struct('lsp_server::Notification', [Cell(method), Cell(Opaque('JsonParams', params))], ['method', 'params'])
+            script.append({'note': kind, 'key': key, 'step': step + 1})
+            ctx.input_desc = {'messages': list(script)}
+            ctx.kind = (kind, key)
+            ctx.script = script
+            applies = kind in ('didChange', 'didSave+text')
+            if applies:
+                expected[key] = new_tok
+            waits0 = self.waits
+            lost = False
+            try:
+                r = ex.call('Router::handle_message', [rref, prog.mk_enum('lsp_server::Message', 'Notification', note)])
+            except Panic as e:
+                # Router::run catches the panic and drops the message: the notification is lost
+                lost = True
+                r = None
+                ctx.panic_msg = e.msg
+            now = self.content_of(router, db, key)
+            info = {'input': ctx.input_desc, 'lost': lost, 'content_after': now}
+            ctx.lost = lost
+            if applies:
+                ctx.law('C11.every-edit-notification-is-applied', (not lost) and now == new_tok, dict(info, workers='see model'))
+                if not lost and self.waits == waits0: ctx.cover('applied-when-no-worker-alive')
+                if lost or self.waits > waits0: ctx.cover('worker-alive')
+                if key == 'c': ctx.cover('new-file')
+                if kind == 'didSave+text': ctx.cover('did-save-with-text')
+                if step == 1: ctx.cover('second-edit')
+            else:
+                ctx.law('C11.other-notifications-leave-the-notes-alone', now == expected.get(key), info)
+                if kind == 'didSave': ctx.cover('did-save-without-text')
+                if kind == 'other': ctx.cover('other-notification')
+                if kind == 'exit':
+                    ctx.law('C11.exit-ends-the-loop', r is True, info)
+            last = info
+        # the server is idle: every worker has finished; a request issued now clones the router's current Arc
+        state = {k: self.content_of(router, db, k) for k in expected}
+        ctx.law('C11.idle-state-is-the-last-text-sent', state == expected, {'input': ctx.input_desc, 'state': state, 'expected': expected})
+        return last
+
+    def content_of(self, router, db, key):
         cur = router.get('server')          # whatever Arc the router holds now is what later requests clone
         db_now = cur.cell.v.get('database') if isinstance(cur, ArcV) else db
         content = db_now.get('content').d.get(('model::Key', key))
-        now = content[1].v if content else None
-        info = {'input': ctx.input_desc, 'lost': lost, 'content_after': now}
-        if applied_expected:
-            ctx.law('C11.every-edit-notification-is-applied', (not lost) and now == new_tok, dict(info, live_clones='see model'))
-            if not lost and self.waits == 0: ctx.cover('applied-when-no-worker-alive')
-            if lost or self.waits > 0: ctx.cover('worker-alive')
-            if key == 'c': ctx.cover('new-file')
-            if kind == 'didSave+text': ctx.cover('did-save-with-text')
+        return content[1].v if content else None
+
+    def refresh(self):
+        alive = [w['alive'] for w in self.workers]
+        if all(isinstance(a, bool) for a in alive):
+            self.arc.strong = 1 + sum(1 for a in alive if a)
         else:
-            ctx.law('C11.other-notifications-leave-the-notes-alone', now == (texts.get(key)), info)
-            if kind == 'didSave': ctx.cover('did-save-without-text')
-            if kind == 'other': ctx.cover('other-notification')
-            if kind == 'exit':
-                ctx.law('C11.exit-ends-the-loop', r is True, info)
-        return info
+            self.arc.strong = z3.simplify(z3.BitVecVal(1, 64) + z3.Sum([z3.If(a, z3.BitVecVal(1, 64), z3.BitVecVal(0, 64)) if is_sym(a) else z3.BitVecVal(1 if a else 0, 64) for a in alive]))
+
+    def spawn(self, ex, c, a, dt):
+        """environment: the new thread exists and holds whatever its closure captured (a clone of the router)"""
+        w = {'i': len(self.workers), 'alive': True, 'closure': a[0]}
+        self.workers.append(w)
+        self.refresh()
+        return Opaque('JoinHandle', w)
+
+    def join(self, ex, c, a, dt):
+        w = natives.deref(a[0]).data
+        w['alive'] = False          # join returns when that worker has finished
+        self.refresh()
+        return OK(False)
 
     def time_passes(self, ex, c, a, dt):
         """environment: while the loop thread waits, one in-flight request worker finishes (every worker terminates)"""
-        k = self.arc.strong
-        if ex.ctx.branch(z3.UGT(k, 1) if not isinstance(k, int) else k > 1):
-            self.arc.strong = z3.simplify(k - 1) if not isinstance(k, int) else k - 1
+        for w in self.workers:
+            al = w['alive']
+            if al is False: continue
+            if al is True or ex.ctx.branch(al):
+                w['alive'] = False
+                break
+        self.refresh()
         self.waits += 1
         return UNIT
 
     def finish_violation(self, ctx, v):
         kind, key = getattr(ctx, 'kind', (None, None))
         m = v.get('model') or {}
-        alive = m.get('live_clones_of_the_server', 1) > 1
-        v['role'] = 'request-worker-alive-while-notification-is-handled' if (alive and v['info'].get('lost')) else 'general'
-        v['input_tree'] = {'kind': kind, 'key': key, 'live_clones': m.get('live_clones_of_the_server', 1)}
+        script = []
+        any_alive = False
+        for st in getattr(ctx, 'script', []):
+            st = dict(st)
+            script.append(st)
+        # per notification: which workers the model keeps running when it is handled
+        running = {}
+        for name, val in m.items():
+            mm = re.match(r'worker(\d+)_still_running_at_notification(\d+)$', name)
+            if mm and val:
+                running.setdefault(int(mm.group(2)), []).append(int(mm.group(1)))
+                any_alive = True
+        v['role'] = 'request-worker-alive-while-notification-is-handled' if (any_alive and v['info'].get('lost')) else 'general'
+        v['input_tree'] = {'messages': script, 'running': {str(k): sorted(x) for k, x in running.items()},
+                           'versions': {k: val for k, val in m.items() if k.startswith('version_of_edit')}}
 
     def replay(self, v, driver):
         d = v['input_tree']
-        script = [{'op': 'router_notification', 'kind': d['kind'], 'key': d['key'], 'live_clones': min(int(d['live_clones']), 3)}]
-        res = driver.run(script, timeout=60)
+        steps, step_no = [], 0
+        msgs = d['messages']
+        # a worker that the model lets finish before the next notification is a request whose worker ends at once;
+        # one that is still running is a request whose response the client has not read yet
+        next_note = {}
+        n = 0
+        for m in msgs:
+            if 'note' in m: n = m['step']
+        for i, m in enumerate(msgs):
+            if 'request' in m:
+                nxt = next(x['step'] for x in msgs[i:] if 'note' in x)
+                alive = m['request'] in d['running'].get(str(nxt), [])
+                steps.append({'request': 'alive' if alive else 'done'})
+            else:
+                ver = d['versions'].get('version_of_edit%d' % m['step'], 1)
+                if ver >= 2 ** 31: ver -= 2 ** 32
+                steps.append({'note': m['note'], 'key': m['key'], 'text': 'EDIT%d one\n\nEDIT%d two\n' % (m['step'], m['step']), 'version': ver})
+        script = [{'op': 'router_session', 'steps': steps}]
+        res = driver.run(script, timeout=90)
         v['replay_script'], v['replay_result'] = script, res
         last = res[-1]
         v['replay_verdict'] = 'native router: %s' % str(last)[:300]
-        if isinstance(last, dict) and 'applied' in last:
-            if v['law'] == 'C11.every-edit-notification-is-applied':
-                return not last['applied']
-            return bool(last.get('changed_unexpectedly'))
-        return False
+        if not (isinstance(last, dict) and 'texts' in last):
+            return False
+        exp = {'a': 'T1', 'b': 'T3'}
+        for st in steps:
+            if st.get('note') in ('didChange', 'didSave+text'):
+                exp[st['key']] = st['text'].split()[0]
+        got = last['texts']
+        return any((exp.get(k) or '') not in (got.get(k) or '') for k in exp)
